@@ -93,6 +93,14 @@ def observe(b, want_rows=True):
             else:
                 _, vs = quiet(ocp.sample, s, grid='control')
                 reg('v', i, vs, N if kind == 'c' else N + 1)
+        deg = getattr(m, 'degree', 0) if type(m).__name__ == 'DirectCollocation' else 0
+        if deg:
+            M = m.M
+            for i, s_ in enumerate(b.x):
+                reg('xi', i, quiet(ocp.sample, s_, grid='integrator')[1], N * M + 1)
+                reg('xr', i, quiet(ocp.sample, s_, grid='integrator_roots')[1], N * M * deg)
+            for i, s_ in enumerate(b.z):
+                reg('zr', i, quiet(ocp.sample, s_, grid='integrator_roots')[1], N * M * deg)
         reg('T', 0, quiet(ocp.value, ocp.T), 1)
         reg('t0', 0, quiet(ocp.value, ocp.t0), 1)
         ts, dtc = quiet(ocp.sample, ocp.DT_control, grid='control')
